@@ -165,6 +165,9 @@ class GlomError(Exception):
         if set(self._tb_lines[0]) <= {' ', '^', '~'}:
             self._tb_lines = self._tb_lines[1:]
         self._scope = scope
+        # a message rendered for an earlier raise of this error (it may have
+        # come out of another glom call and been str()'d) is stale now
+        self._finalized_str = None
 
     def __str__(self):
         if getattr(self, '_finalized_str', None):
